@@ -34,3 +34,40 @@ int fixtureLoopStateBad(const std::vector<int> &items)
     }
     return total;
 }
+
+// Emit-once-per-group loops (engines.last_seen_dedup): remembering only the LAST group handled is right only when groups are contiguous.
+struct FixtureItem
+{
+    int group;
+    int groupOf() const { return group; }
+};
+
+int fixtureLastSeenBad(const std::vector<FixtureItem> &items)
+{
+    int emitted = 0;
+    int handled = -1;
+    for (const auto &item : items) {
+        if (item.groupOf() != handled) { // A1 B1 A2: group A is emitted twice
+            ++emitted;
+            handled = item.groupOf();
+        }
+    }
+    return emitted;
+}
+
+int fixtureLastSeenGood(const std::vector<FixtureItem> &items)
+{
+    int emitted = 0;
+    std::vector<int> handled;
+    for (const auto &item : items) {
+        bool seen = false;
+        for (int g : handled) {
+            seen = seen || (g == item.groupOf());
+        }
+        if (!seen) {
+            ++emitted;
+            handled.push_back(item.groupOf());
+        }
+    }
+    return emitted;
+}
